@@ -236,12 +236,24 @@ def make_view(name, f):
     cls = getattr(importlib.import_module(modname), clsname)
     G = _ghost_bytesio()
     sub = G(bytes(b % 256 for b in f["substream"]["content"]))
-    sub.seek(max(0, f["substream"].get("cur", 0)))
-    obj = cls.__new__(cls)
-    obj.substream = sub
+    pos, bl = f.get("position", 0), f.get("buffer_length", 0x1000)
+    # build the object through its real constructor, then impose the remaining state of the input
+    if base == "StreamWrapper":
+        obj = cls(sub, f["end_of_file"], pos, bl)
+    elif base == "StreamOffset":
+        obj = cls(sub, f["end_of_file"], f["offset"], pos, bl)
+    elif base == "SectorStream":
+        obj = cls(sub, f["end_of_file"], f["sector_length"], pos, bl)
+    elif base == "FileStream":
+        obj = cls(sub, f["sector_length"], list(f["sector_list"]), pos, bl)
+    elif base == "MdfStream":
+        obj = cls(sub, pos, bl)
+    else:
+        obj = cls(sub, f["end_of_file"], f["sample_width"], pos, bl)
     for k, v in f.items():
-        if k != "substream":
+        if k != "substream" and getattr(obj, k, None) != v:
             setattr(obj, k, v)
+    sub.seek(max(0, f["substream"].get("cur", 0)))
     return obj
 
 
@@ -276,6 +288,10 @@ def _configs(name, tier):
                 for eof in sorted({1, n // 2 or 1, n}):
                     out.append({"substream": {"content": list(range(10, 10 + n))}, "end_of_file": eof, "sector_length": L})
     elif base == "FileStream":
+        # long, non-contiguous chains: a single read spanning several whole middle sectors
+        for L, sl in ((2, [4, 1, 3, 0, 5]), (1, [5, 3, 1, 4, 2, 0]), (2, [0, 2, 4, 1])):
+            out.append({"substream": {"content": list(range(10, 10 + 6 * L))}, "end_of_file": L * len(sl),
+                        "sector_length": L, "sector_list": sl})
         for L in (1, 2, 3):
             for nsec in (1, 2, 3):
                 total = nsec + 1
